@@ -89,9 +89,11 @@ func (h *transportHandler) HandleLinkLost(lnk link.Link) {
 	h.c.bcast.HoldLockMaybeAsync(func(broadcast func(), getWaitCh func() <-chan struct{}) {
 		// fast path: clear by uuid
 		luuid := lnk.GetUUID()
-		if el, elOk := h.c.links[luuid]; elOk {
+		// note: a newer link may have replaced this one under the same uuid.
+		if el, elOk := h.c.links[luuid]; elOk && el.lnk == lnk {
 			delete(h.c.links, luuid)
 			h.c.flushEstablishedLink(el, false)
+			broadcast()
 			return
 		}
 
@@ -101,6 +103,7 @@ func (h *transportHandler) HandleLinkLost(lnk link.Link) {
 			if l.lnk == lnk {
 				delete(h.c.links, k)
 				h.c.flushEstablishedLink(l, false)
+				broadcast()
 				break
 			}
 		}
